@@ -5,7 +5,7 @@ import json, os, re, sys
 rows = {}
 for line in open(sys.argv[1]):
     parts = line.split()
-    if len(parts) < 3 or not re.match(r'C\d\d_[mnrqst]\d', parts[0]):
+    if len(parts) < 3 or not re.match(r'C\d\d_[mnrqstvw]\d', parts[0]):
         continue
     sid, pid, verdict = parts[0], parts[1], parts[2]
     hits = {}
